@@ -121,6 +121,15 @@ func drawCalls(t *tape.Tape, family string) []jsCall {
 			if !found {
 				c.names, c.vals = append(c.names, "a0"), append(c.vals, "THROW")
 			}
+			// ... or makes it end in a result that is turned down (another way for a call to fail, with
+			// its own way out of the runtime)
+			if how := t.Intn("js.probethrow.how", 5); how > 0 {
+				for i, nm := range c.names {
+					if nm == "a0" {
+						c.vals[i] = []string{"", "NAN", "INF", "NULL", "UNDEF"}[how]
+					}
+				}
+			}
 		}
 		if c.kind == "concat" {
 			c.vals[0], c.vals[1] = "s"+fmt.Sprint(t.Intn("js.s", 100)), "t"
@@ -160,7 +169,10 @@ func (c jsCall) script() string {
 		}
 		if c.kind == "probethrow" {
 			// one script text for calls that fail and for calls that look around
-			return "if (typeof a0 !== 'undefined' && a0 === 'THROW') { throw new Error('asked to') } 'defined:' + " + strings.Join(parts, " + ")
+			return "if (typeof a0 !== 'undefined' && a0 === 'THROW') { throw new Error('asked to') } " +
+				"(typeof a0 !== 'undefined' && a0 === 'NAN') ? 0/0 : (typeof a0 !== 'undefined' && a0 === 'INF') ? 1/0 : " +
+				"(typeof a0 !== 'undefined' && a0 === 'NULL') ? null : (typeof a0 !== 'undefined' && a0 === 'UNDEF') ? undefined : " +
+				"'defined:' + " + strings.Join(parts, " + ")
 		}
 		return "'defined:' + " + strings.Join(parts, " + ")
 	case "node":
@@ -281,7 +293,7 @@ func (c jsCall) expected(nodeJSON string) (val interface{}, isErr bool) {
 	case "probe", "probethrow":
 		if c.kind == "probethrow" {
 			for i, nm := range c.names {
-				if nm == "a0" && c.vals[i] == "THROW" {
+				if v, isStr := c.vals[i].(string); nm == "a0" && isStr && (v == "THROW" || v == "NAN" || v == "INF" || v == "NULL" || v == "UNDEF") {
 					return nil, true
 				}
 			}
